@@ -146,6 +146,35 @@ fn run_with<'i, I: Input<'i>, R: RuleType, N: ParsableTypedNode<'i, R> + Pairs<'
 }
 
 /// Run one case against a pest-typed rule struct.
+/// The PUBLIC entry points of `ParsableTypedNode` (`try_parse`, `try_check`, `try_parse_partial`,
+/// `try_check_partial`: they create their own stack and tracker) on the input object as the user passes it:
+/// `api=ok[:<end>:<hex of {:?}>]` or `api=fail:<hex of the error message>`.
+fn api_with<'i, A: AsInput<'i>, R: RuleType, N: ParsableTypedNode<'i, R> + Pairs<'i, R> + core::fmt::Debug>(
+    entry: &str,
+    given: A,
+) -> String {
+    let err = |e: Box<pest_typed::error::Error<R>>| format!("fail:{}", hex(&e.variant.message()));
+    match entry {
+        "parse_partial" => match N::try_parse_partial(given) {
+            Ok((next, node)) => format!("ok:{}:{}", next.byte_offset(), hex(&format!("{:?}", node))),
+            Err(e) => err(e),
+        },
+        "check_partial" => match N::try_check_partial(given) {
+            Ok(next) => format!("ok:{}", next.byte_offset()),
+            Err(e) => err(e),
+        },
+        "parse" => match N::try_parse(given) {
+            Ok(node) => format!("ok::{}", hex(&format!("{:?}", node))),
+            Err(e) => err(e),
+        },
+        "check" => match N::try_check(given) {
+            Ok(()) => "ok".to_string(),
+            Err(e) => err(e),
+        },
+        _ => "badentry".to_string(),
+    }
+}
+
 pub fn run_typed<'i, R: RuleType, N: ParsableTypedNode<'i, R> + Pairs<'i, R> + core::fmt::Debug>(
     entry: &str,
     form: &str,
@@ -154,13 +183,13 @@ pub fn run_typed<'i, R: RuleType, N: ParsableTypedNode<'i, R> + Pairs<'i, R> + c
     input: &'i str,
 ) -> String {
     match form {
-        "str" => run_with::<_, R, N>(entry, input.as_input()),
+        "str" => format!("{}\tapi={}", run_with::<_, R, N>(entry, input.as_input()), api_with::<_, R, N>(entry, input)),
         "pos" => match Position::new(input, a) {
-            Some(p) => run_with::<_, R, N>(entry, p.as_input()),
+            Some(p) => format!("{}\tapi={}", run_with::<_, R, N>(entry, p.as_input()), api_with::<_, R, N>(entry, p)),
             None => "v=badpos".into(),
         },
         "span" => match Span::new(input, a, b) {
-            Some(s) => run_with::<_, R, N>(entry, s.as_input()),
+            Some(s) => format!("{}\tapi={}", run_with::<_, R, N>(entry, s.as_input()), api_with::<_, R, N>(entry, s)),
             None => "v=badspan".into(),
         },
         _ => "v=badform".into(),
